@@ -23,6 +23,9 @@ type CReq struct {
 	Behave  string `json:"behave"` // ok, stall, cut
 	RespLen int    `json:"resp_len"`
 	BodyLen int    `json:"body_len"`
+	// CallbackMs: the application's callback for this request takes this long (longer than the client's
+	// timeout: the requests queued behind it time out while it runs)
+	CallbackMs int `json:"callback_ms,omitempty"`
 }
 
 type ClientCase struct {
@@ -141,6 +144,9 @@ func runClient(c ClientCase) vlib.Result {
 					return
 				}
 			}
+			if q.CallbackMs > 0 {
+				time.Sleep(time.Duration(q.CallbackMs) * time.Millisecond)
+			}
 		}
 	}
 	timeout := 700 * time.Millisecond
@@ -233,6 +239,13 @@ func genClient(t *rapid.T) ClientCase {
 			q.Behave = rapid.SampledFrom([]string{"stall", "cut"}).Draw(t, "behave")
 		}
 		c.Reqs = append(c.Reqs, q)
+	}
+	if c.Pipelined && len(c.Reqs) >= 2 && rapid.IntRange(0, 5).Draw(t, "slowcb") == 0 {
+		// a slow callback in front of a request the server never answers: that one times out while the
+		// callback is still running
+		k := rapid.IntRange(0, len(c.Reqs)-2).Draw(t, "slowat")
+		c.Reqs[k].Behave, c.Reqs[k].CallbackMs = "ok", 900
+		c.Reqs[k+1].Behave = "stall"
 	}
 	return c
 }
